@@ -15,7 +15,7 @@ def main():
     logd = os.path.join(overlay.VERIF, "logs", "dev"); os.makedirs(logd, exist_ok=True)
     try:
         with cf.ThreadPoolExecutor(max_workers=6) as ex:
-            futs = {ex.submit(kani_run.run_harness, scratch, dict({"file": hf, "name": n}, **dict(({"recursion": json.loads(os.environ["RECURSION"])} if os.environ.get("RECURSION") else {}), **({"map_cap": int(os.environ["CAP"])} if os.environ.get("CAP") else {}))), logd, timeout, extra): n for n in names}
+            futs = {ex.submit(kani_run.run_harness, scratch, dict({"file": hf, "name": n, "keep_target": bool(os.environ.get("KEEP"))}, **dict(({"recursion": json.loads(os.environ["RECURSION"])} if os.environ.get("RECURSION") else {}), **dict(({"loops": json.loads(os.environ["LOOPS"])} if os.environ.get("LOOPS") else {}), **({"map_cap": int(os.environ["CAP"])} if os.environ.get("CAP") else {})))), logd, timeout, extra): n for n in names}
             for fut in cf.as_completed(futs):
                 r = fut.result()
                 print("== %s verdict=%s wall=%ss vt=%s rss=%sMB checks=%s timed_out=%s err=%s" % (
@@ -26,7 +26,7 @@ def main():
                 for c in r["covers"]:
                     print("   cover:", c["description"], c["status"])
                 if r["verdict"] is None or r["compile_or_cbmc_error"]:
-                    os.system("grep -n -E '^error|panicked|Out of memory' -A8 %s | head -60" % r["log"])
+                    os.system("grep -n -E '^error|panicked|Out of memory' -A8 %s | head -12" % r["log"])
                 sys.stdout.flush()
     finally:
         if not keep:
